@@ -519,7 +519,7 @@ def run(prop, tier):
                 {'family': 'conc', 'kind': r['kind'],
                  'cfg': {k: r[k] for k in r if k in ('api', 'backend', 'n', 'buf', 'w', 'fail_at', 'fail_cls',
                                                       'fn_fail', 'fail_kind', 'cfe', 'stop', 'stop_k',
-                                                      'prog', 'shape', 'seq', 'via')},
+                                                      'prog', 'shape', 'seq', 'via', 'buf_api')},
                  'events': r['events'], 'end': r['end'], 'delivered': r['delivered'],
                  'deadlock': r['deadlock'], 'alive': r['alive'], 'verdict': [status, clause],
                  'how': 'controlled execution of the real threads, log judged by TLC'})
